@@ -76,4 +76,39 @@ def restore {V : Type} (t : PickleTable) (fresh : Obj V) (st : List V) : Obj V :
     | some e => (st[e.2]?).getD (fresh a)
     | none => fresh a
 
+/-! ### classes pickled through `__reduce__ = (cls, args)`: unpickling calls `cls(*args)` -/
+
+/-- which attribute a parameter of `__init__` is written to (kept by hand; validated at run time by constructing objects
+with distinct values and reading every attribute back). -/
+def initTarget : String → String
+  | "v0" => "initial_volume"
+  | "t0" => "initial_time"
+  | p => p
+
+/-- attributes not carried by the argument tuple, each with its reason. -/
+def reduceTransient : List (String × String) :=
+  [("LineageVolumeCellState", "volume_object"),   -- handle re-attached by the simulator
+   ("LineageVolumeCellState", "delay_queue")]     -- never set by the lineage simulators (no delays there)
+
+def reducePersistent (t : ReduceTable) : List String :=
+  t.declared.filter (fun a => !(reduceTransient.contains (t.cls, a)))
+
+/-- consistency of a `__reduce__` / `__init__` pair: as many arguments as parameters, position `i` carries the attribute
+parameter `i` is written to, every persistent attribute is carried, and `__getstate__` (what the harness observes)
+lists the same attributes. -/
+def reduceOk (t : ReduceTable) : Bool :=
+  t.reduceArgs.length == t.initParams.length
+  && (t.initParams.zip t.reduceArgs).all (fun pa => initTarget pa.1 == pa.2)
+  && (reducePersistent t).all (fun a => t.reduceArgs.contains a)
+  && t.getstate == t.reduceArgs
+
+def dumpReduce {V : Type} (t : ReduceTable) (o : Obj V) : List V := t.reduceArgs.map o
+
+/-- `cls(*args)`: parameter `i` receives `args[i]` and is written to its target attribute; attributes no parameter is
+written to keep their fresh value. -/
+def construct {V : Type} (t : ReduceTable) (fresh : Obj V) (args : List V) : Obj V := fun a =>
+  match (t.initParams.zip args).find? (fun pa => initTarget pa.1 == a) with
+  | some pa => pa.2
+  | none => fresh a
+
 end Bioscrape.Pickle
